@@ -21,6 +21,18 @@ if "<!-- SEEDTABLE -->" in s:
     s = re.sub(r"<!-- SEEDTABLE -->.*?<!-- /SEEDTABLE -->", "<!-- SEEDTABLE -->\n" + table + "\n<!-- /SEEDTABLE -->", s, flags=re.S)
 else:
     s = s.replace("(table generated below by selftest/seed_table.py)", "<!-- SEEDTABLE -->\n" + table + "\n<!-- /SEEDTABLE -->")
+# the false-alarm table (behaviour-preserving refactorings)
+hrows = []
+for f in sorted(glob.glob(os.path.join(VERIF, "seeded", "harmless", "*", "meta.json"))):
+    m = json.load(open(f))
+    n = len(m.get("checks", {})) or 20
+    files = m["files"] if isinstance(m["files"], list) else [m["files"]]
+    alarms = m.get("alarms") or []
+    hrows.append(f"| {m['id']} | {', '.join(files)} | {(m.get('summary') or '').replace('|', '/')[:260]} | {'yes' if m.get('suite_passes_with_patch') else 'NO'} | "
+                 f"{'none (' + str(n) + '/' + str(n) + ' checks quiet)' if not alarms else '**' + ', '.join(map(str, alarms)) + '**'} |")
+if "<!-- HARMLESS -->" in s:
+    ht = "| id | files | refactoring | suite passes | alarms |\n|---|---|---|---|---|\n" + "\n".join(hrows)
+    s = re.sub(r"<!-- HARMLESS -->.*?<!-- /HARMLESS -->", lambda _: "<!-- HARMLESS -->\n" + ht + "\n<!-- /HARMLESS -->", s, flags=re.S)
 # Appendix B: the model map (which Rust function is modelled by which Lean definition), from modelmap.json
 import subprocess
 mt = subprocess.run(["python3", os.path.join(VERIF, "anchors.py"), "--map-table"], capture_output=True, text=True).stdout.strip()
